@@ -14,6 +14,20 @@ CHECKS = {
    note="Trusted: TLC, the harness's logging of arguments/results, the named orderings of KeyedPQ.tla. Model geometry is small (heap 2..8); "
         "the code is driven across 8..64 by random histories only. A comparator that is not its named ordering is reported as DRIFT, not judged.",
    technique="TLA+ refinement model checking (TLC) + trace validation of recorded operation histories"),
+ "C01": dict(level="model_checking", design="DESIGN.md §4 C01",
+   text="TLC checks the abstract event queue (spec/EventQueue.tla: schedule/cancel/reschedule/reprioritize/pattern ops/clear from dispatcher "
+        "context and from inside running actions) for run-once, cancelled-never-runs, accounting and clock monotonicity over all bounded "
+        "histories; seeded histories are executed on the real cmb_event_* API (incl. operations from inside actions, ties, extreme "
+        "priorities/time scales, populations across growth thresholds) and every trace is validated by TLC against spec/EventQueueTrace.tla, "
+        "which demands the dispatch order, the clock, the current-event query inside actions and all handle queries after every operation.",
+   note="Trusted: TLC, hook H1 (handle of the dispatched event), the monotone code<->value maps of the harness. Histories are random beyond the "
+        "model's bounds, not exhaustive. NaN times are out of scope.",
+   technique="TLA+ model checking (TLC) of the abstract event queue + TLC trace validation of recorded API histories"),
+ "C10": dict(level="exploration", design="DESIGN.md §4 C10",
+   text="Every history/program the other checks generate (valid by the specifications' preconditions) is run on the release-flag build, where "
+        "a library abort or fatal signal is recorded, and on an ASan+UBSan build with fiber annotations; any abort or sanitizer report is a violation.",
+   note="Exploration under instrumentation guided by the specifications' generators; not a proof of memory safety. UBSan null/alignment checks are off by design.",
+   technique="spec-generated valid behaviours replayed under ASan/UBSan and release asserts"),
 }
 NA = {}
 
